@@ -606,19 +606,33 @@ def run(ctx, chk, tier="quick"):
                     sent_set = (n.targets[0].value.id if isinstance(n.targets[0].value, ast.Name) else None, py_poly(n.value).const_or_none(), n)
                 except Exception:
                     pass
-            if isinstance(n, ast.Assign) and isinstance(n.value, ast.Compare) and len(n.value.ops) == 1 and isinstance(n.value.ops[0], (ast.NotEq, ast.Gt, ast.GtE)):
+            # labels = np.full(shape, c, ...)
+            if isinstance(n, ast.Assign) and len(n.targets) == 1 and isinstance(n.targets[0], ast.Name) and isinstance(n.value, ast.Call) \
+                    and (full_call_name(mod, n.value) or "").endswith("numpy.full") and len(n.value.args) >= 2:
+                try:
+                    c_ = py_poly(n.value.args[1]).const_or_none()
+                    if c_ is not None and c_ == int(c_) and any(isinstance(k.value, ast.Constant) and "int" in str(k.value.value) for k in n.value.keywords if k.arg == "dtype"):
+                        sent_set = (n.targets[0].id, c_, n)
+                except Exception:
+                    pass
+            if isinstance(n, ast.Assign) and isinstance(n.value, ast.Compare) and len(n.value.ops) == 1 \
+                    and isinstance(n.value.ops[0], (ast.NotEq, ast.Gt, ast.GtE, ast.Eq, ast.Lt, ast.LtE)) and sent_set is not None \
+                    and isinstance(n.value.left, ast.Name) and n.value.left.id == sent_set[0]:
                 try:
                     sent_test = (n.value.left.id if isinstance(n.value.left, ast.Name) else None, type(n.value.ops[0]).__name__,
                                  py_poly(n.value.comparators[0]).const_or_none(), n)
                 except Exception:
                     pass
+        if sent_set is None or sent_test is None:
+            chk.indeterminate("C10.O5", where_of(wl, wl.node), "how unlabelled instants are marked (sentinel written / sentinel tested) is not recognised")
         if sent_set is not None and sent_test is not None and sent_set[0] == sent_test[0] and (sent_set[1] is None or sent_test[2] is None):
             chk.indeterminate("C10.O5", where_of(wl, sent_test[3]), "sentinel of unlabelled instants is not a literal")
         elif sent_set is not None and sent_test is not None and sent_set[0] == sent_test[0]:
             sv_, tv_ = sent_set[1], sent_test[2]
             opn = sent_test[1]
             oks = (opn == "NotEq" and sv_ == tv_ and sv_ < 1) or (opn == "Gt" and sv_ <= tv_ < 1) or (opn == "GtE" and sv_ < tv_ <= 1)
-            chk.ob("C10.O5", oks, where_of(wl, sent_test[3]), "unlabelled instants carry %s; kept when label %s %s" % (sv_, {"NotEq": "!=", "Gt": ">", "GtE": ">="}[opn], tv_),
+            chk.ob("C10.O5", oks, where_of(wl, sent_test[3]), "unlabelled instants carry %s; kept when label %s %s" % (
+                sv_, {"NotEq": "!=", "Gt": ">", "GtE": ">=", "Eq": "==", "Lt": "<", "LtE": "<="}[opn], tv_),
                    "the sentinel written is the one tested, and it is not a label", key="populate_water_level|sentinel",
                    why="with another sentinel every instant inside a gap passes the test and gets an interpolated water level")
         # UPDATE binding order
